@@ -762,7 +762,7 @@ func (g *gen) htmlBlock() []string {
 		{[]string{`<section id="s"><h2 data-raw="1" id="keep">` + w + `</h2></section>`}, false},                   // 6
 		{[]string{`<details>`, `<summary>` + w + `</summary>`, mu, `</details>`}, false},                           // 6
 		{[]string{`<span class="y">`, w, `</span>`}, false},                                                        // 7
-		{[]string{g.rawTag("a") + ` href="/x?a=1&amp;b=2">`, "*" + w + "*", `</a>`}, false},                        // 7
+		{[]string{`<div>` + g.rawTag("a") + ` href="/x?a=1&amp;b=2">` + w + `</a></div>`}, false},                  // 7
 		{[]string{`<my-element attr='v'>`, w, `</my-element>`}, false},                                             // 7
 		{[]string{g.rawTag("pre") + `>` + w + ` {{ y }}</pre>`}, false},                                            // 1, single line
 		{[]string{`<script>let a = 1;</script>`}, false},                                                           // 1
